@@ -357,8 +357,26 @@ fn run_one(cfg: &Cfg, tier: Tier, i: u64, seed: u64, c: &mut Counters) -> Vec<Vi
             let f2c = o.steps.iter().filter(|s| matches!(s, Step::Tx(t) if !t.f2.is_empty())).count() as u64;
             c.add("f2_configured", f2c);
             c.sample(|| json!({"seed": seed, "init": &h.init, "steps": &o.steps}));
+            let mut extra_findings: Vec<StepFinding> = vec![];
+            if cfg.prop == "C18" && o.fin.wf().is_ok() && o.fin.n() >= 4 {
+                // refusal of illegal removals, in sacrificial executions on the final state
+                let fin = Arc::new(o.fin.clone());
+                let linked: Vec<u32> = (1..fin.n() as u32).filter(|&d| !fin.unused[d as usize] && !fin.is_free(d)).collect();
+                let removed: Vec<u32> = (1..fin.n() as u32).filter(|&d| fin.unused[d as usize]).collect();
+                let mut r2 = rng.fork(7);
+                for (cands, class, what) in [(&linked, "removal-of-linked-dart-accepted", "linked"), (&removed, "double-removal-accepted", "already removed")] {
+                    if cands.is_empty() {
+                        continue;
+                    }
+                    let d = *r2.pick(cands);
+                    c.inc("probe_illegal_removals_tried");
+                    if !removal_is_refused(fin.clone(), h.order.clone(), d) {
+                        extra_findings.push(StepFinding { step: o.steps.len().saturating_sub(1), finding: crate::oracle::Finding { prop: "C18", class: class.into(), msg: format!("remove_free_dart({d}) on a {what} dart was not refused") } });
+                    }
+                }
+            }
             let mut seen_classes = std::collections::BTreeSet::new();
-            for f in &o.findings {
+            for f in o.findings.iter().chain(extra_findings.iter()) {
                 if f.finding.prop == "HARNESS" {
                     panic!("{}", f.finding.msg);
                 }
